@@ -123,7 +123,7 @@ func c12ReadAck(r *vsRun, ack *c12Ack) {
 
 // c12Damage leaves files in the copied directory the way interrupted writes would.
 func c12Damage(rt *rapid.T, d veDirs, hist *[]string) {
-	kinds := rapid.SliceOfNDistinct(rapid.SampledFrom([]string{"state", "index", "snapshot", "none", "none"}), 0, 3, func(s string) string { return s }).Draw(rt, "damage")
+	kinds := rapid.SliceOfNDistinct(rapid.SampledFrom([]string{"state", "index", "snapshot", "cache", "cache", "none", "none"}), 0, 3, func(s string) string { return s }).Draw(rt, "damage")
 	for _, k := range kinds {
 		switch k {
 		case "state":
@@ -156,6 +156,23 @@ func c12Damage(rt *rapid.T, d veDirs, hist *[]string) {
 						*hist = append(*hist, fmt.Sprintf("damage: partial index file without magic (%d of %d bytes)", cut, len(b)))
 					}
 					break
+				}
+			}
+		case "cache":
+			// a converter cache file whose last record was being appended when the process died
+			ents, _ := os.ReadDir(d.index)
+			for _, en := range ents {
+				if strings.HasSuffix(en.Name(), ".cidx") {
+					p := filepath.Join(d.index, en.Name())
+					if st, err := os.Stat(p); err == nil && st.Size() > 16 {
+						cut := rapid.Int64Range(1, 40).Draw(rt, "cachecut")
+						if cut >= st.Size()-8 {
+							cut = st.Size() - 9
+						}
+						if cut > 0 && os.Truncate(p, st.Size()-cut) == nil {
+							*hist = append(*hist, fmt.Sprintf("damage: converter cache %s cut by %d of %d bytes", en.Name(), cut, st.Size()))
+						}
+					}
 				}
 			}
 		case "snapshot":
@@ -379,6 +396,13 @@ func c12Prop(rt *rapid.T, c *vlib.Case, t *testing.T, open map[string]bool) {
 				e.close()
 				r.fatalf("%v", err)
 			}
+			if os.Getenv("VERIF_DEBUG_TAGS") != "" {
+				tags, next, _ := c11State(e)
+				fmt.Fprintf(os.Stderr, "AFTER %s (next=%d)\n%s", r.hist[len(r.hist)-1], next, c11Render(tags))
+				for n, ts := range tags {
+					fmt.Fprintf(os.Stderr, "   %s matches=%v uncertain=%v\n", n, sortedKeys(ts.matches), sortedKeys(ts.uncertain))
+				}
+			}
 		}
 		// everything acknowledged so far, and the ids of the streams of delivered imports
 		c12ReadAck(r, ack)
@@ -429,6 +453,8 @@ func c12Prop(rt *rapid.T, c *vlib.Case, t *testing.T, open map[string]bool) {
 	// converge: settle, then the C06 oracle must hold for all tags
 	r.settleAll(400)
 	var msg string
+	// (converter output is not asserted here: a crash between an import's index file and its registration leaves
+	// output of the older payload in the cache, which neither C12's nor C16's text covers)
 	_ = r.e.inLoop(func() { msg = r.e.checkTagsInLoop(nil) })
 	r.e.close()
 	if msg != "" {
